@@ -228,6 +228,9 @@ def extra_Xs(B, case, ob, points, targets):
 def compare_Xs(mXs, rXs):
     """model node states vs rockit's sample(x,'control') at each point"""
     dis = []
+    flat = [v for X in list(mXs) + list(rXs) for col in X for v in col]
+    if any((not math.isfinite(v)) or abs(v) > BIG for v in flat):
+        return []   # overflowed trajectory: no information
     for p, (a, b) in enumerate(zip(mXs, rXs)):
         if len(a) != len(b):
             return [{"what": "number of sampled nodes differs", "model": len(a), "rockit": len(b)}]
